@@ -25,6 +25,12 @@ P = {
          "stiff subsets sampled in the replay, exhaustive in the specification", TECH + "spec-to-code replay", "6 C07"),
  "C12": ("TLC checks on every structural model that removal of unused variables changes neither results nor layout and never reads a removed name; replay compares with/without removal by name; TraceEmit checks def-before-use on every emitted function with remove_unused on the repository's models",
          "bounded models; three backends in the trace leg, numpy in the replay", TECH + "replay + trace validation (use-before-def)", "6 C12"),
+ "C08": ("WellFormed (written from the property) decides acceptance; TLC applies 19 fault kinds at every site of sampled structural models (about 10^5 faulted texts) and checks that the staged loader of the specification rejects exactly the ill-formed ones; a sample of the faulted texts is loaded and generated (numpy + C) in the real library: an ill-formed text that yields code is a violation",
+         "one fault per text; base models with 1-2 intermediates", TECH + "fault enumeration in TLA+, spec-to-code replay", "6 C08"),
+ "C09": ("TLC shows the layout is a function of the text for every structural model and - on the free-schedule variant of the specification - produces the models on which set-iteration order would change the layout; those witnesses, a structural sample and the repository's models are generated in fresh processes under different PYTHONHASHSEED values and must be byte-identical; hook traces give the order in which dependency sets reach the sorter and, when it varies, MC_Sched.tla decides whether a layout-changing order exists; call histories generated from Session.tla are replayed in one process",
+         "hash seeds sampled (6 quick / 32 thorough); histories of length <= 3", TECH + "schedule exploration in the specification, cross-process replay, hook traces", "6 C09"),
+ "C10": ("TLC applies block / entry / line permutations to sampled structural models and checks model and layout equality on the specification; both texts are loaded in the real library and compared (ODE equality, bytes of numpy / C output)",
+         "one permutation step per text (swaps, reversal, rotation generate the group)", TECH + "spec-to-code replay", "6 C10"),
 }
 
 
